@@ -4,10 +4,47 @@ PROP = {
     "gotags": [],
     "n": {"quick": 50, "thorough": 300},
     "driver_timeout": {"quick": 300, "thorough": 1500},
-    "rule": "TODO",
-    "tags": {}, "trivial_tags": [], "min_tags": 10,
-    "reasons": {},
-    "assumptions": [],
-    "explanation": "TODO",
+    "rule": "cases = deterministic scenarios on the REAL code, scheduled with gates (hooks blocking on channels), never with sleeps: "
+            "(a) gated hooks: a request whose pre-hook or post-response hook is blocked when Stop is called, both frontends, announce and scrape - Stop's result must not be delivered while "
+            "the handler / the post-response hook is in flight and must be delivered once the gates open; (b) NewFrontend immediately followed by Stop (GOMAXPROCS 1 and all cores, n times per "
+            "frontend), then a port probe and a request; (c) stop groups: every subset of 4 members failing (one or two errors each) x members completing in every order (quick: a quarter of the "
+            "orders), sizes 0-3, nested groups, nil-first Done arguments, members that never complete; (d) requests, Stop, goroutine dump diff; (e) reload histories through cmd/chihaya's real Run "
+            "(a child process built from the current tree with the add-only shim cmd/chihaya/zz_verif.go: stdin-driven Start/Stop), announces and scrapes over real HTTP and UDP sockets with "
+            "reloads at random points; (f) Stop(everything) with a gated post-response hook, memory and Redis (miniredis) stores: the released hook must not reach a stopped store. "
+            "Non-trivial = every case; distinct = distinct input JSON.",
+    "tags": {"1": "group: delivered, flat members", "2": "group: a member never completes, nothing delivered", "3": "group with a nested group",
+             "10-13": "gated hook: 10+2*frontend+mode (frontend 0 UDP / 1 HTTP; mode 0 pre-hook gated, 1 post-response hook gated)",
+             "20/21": "NewFrontend;Stop race UDP/HTTP", "30/31": "requests then Stop, goroutines UDP/HTTP", "40-43": "reload history with 0/1/2/3+ reloads",
+             "50/51": "Stop(everything) with a pending post-response hook, UDP/HTTP"},
+    "trivial_tags": [], "min_tags": 10,
+    "reasons": {"1": "Stop's result was delivered while a post-response hook (AfterAnnounce/AfterScrape) of an accepted request was still in flight",
+                "2": "after Stop completed the listener was still open (the port accepted a connection / was still bound)",
+                "3": "after everything was stopped a late post-response hook called into the stopped store: 'attempted to interact with stopped ... store' (process panic)",
+                "4": "a stop group did not report exactly its members' errors", "5": "a stop group delivered although a member never completed / did not deliver although all completed",
+                "6": "Stop never delivered its result (or delivered where the protocol cannot)", "7": "goroutines of the stopped component were still alive after the grace period",
+                "8": "after a reload a request was not answered with the swarm contents from before the reload", "9": "a request was answered after Stop had completed",
+                "10": "Stop reported errors on a clean shutdown", "11": "Stop's result was delivered while a request handler was still running", "12": "a reload failed",
+                "13": "a late post-response hook panicked after Stop (other message)",
+                "101": "group result differs from the model for Done arguments with nil entries (package contract, not claimed by the property)",
+                "108": "a request before any reload was answered differently from the model's tiny store (C01 territory)", "109": "model could not serve the history (glue defect)"},
+    "assumptions": ["goroutine scheduling, net/http.Server.Shutdown ('closes the listeners, returns when no handler is active'), Serve ('closes l before returning') and sockets are LIBRARY ACTIONS of the machines, taken from the Go documentation",
+                    "every hook invocation terminates (the termination theorems are relative to that)",
+                    "'goroutines have exited' is formalised as 'no goroutine of the component performs another observable action after Stop completes' (DESIGN 9.B-10); the goroutine-dump comparison allows a grace period",
+                    "quiet period 300 ms: how long a stop.Result must stay undelivered to be recorded as 'not delivered while the gate was closed'"],
+    "explanation": "PARTIAL. Theorems over Model/Lifecycle.v: stop groups report exactly their members' errors in member order for every subset failing with any number of errors, deliver iff every member "
+                   "completed, in any completion order (group_*); UDP and HTTP Stop protocols as interleaving machines whose schedules are ARBITRARY lists of thread choices (start-up, packets/connections, "
+                   "handlers, post-response hooks, the Stop goroutine): in EVERY schedule, once Stop's result is delivered the socket/listener is closed, no handler and no post-response hook is in flight "
+                   "and no goroutine of the component does anything observable ever after (udp/http_stop_quiescent, _silent_after_stop); Stop never misses a server (http_stop_never_misses); Stop terminates "
+                   "(no deadlock: delivery reachable from every reachable state; no livelock: a decreasing measure); in every interleaving of both frontends with Run.Stop no call reaches a stopped store; "
+                   "reloads at ANY points of ANY request history change no answer and no contents (reload_transparent). The code before the fixes F6/F7 is the `false` variant of the same machines, refuted by "
+                   "kernel-checked schedules (Stop misses the unassigned server; a post-response hook outlives Stop and panics on the stopped store). Tied to pkg/stop, both frontends, middleware.Logic, both "
+                   "stores and cmd/chihaya's Run by gated deterministic scenarios on the real code; the model is run on the schedule each scenario forces.",
 }
-CLAIM = {"text": PROP["explanation"], "design_ref": "DESIGN.md section 8, C16", "note": "TODO", "technique": "TODO"}
+CLAIM = {
+    "text": PROP["explanation"],
+    "design_ref": "DESIGN.md section 8, C16; findings F6, F7 (section 9.A); observation 9.B-10",
+    "note": "PARTIAL: goroutine scheduling, net/http's Shutdown/Serve and sockets are assumed to behave as the library actions in the model (Go documentation), and the tie to the code is a finite set of "
+            "gated scenarios rather than schedule enumeration of the real goroutines. Trusted: Coq kernel+vm_compute, Glue/G16.v, Go driver c16.go (gates, port probes, goroutine dumps, child process of "
+            "cmd/chihaya built with the add-only shim cmd/chihaya/zz_verif.go), miniredis.",
+    "technique": "Coq proofs (invariants over all schedules of lifecycle interleaving machines, stop-group algebra, reload transparency) + gated deterministic scenarios on the real code compared with the model",
+}
